@@ -16,6 +16,13 @@ open(os.path.join(ROOT, "MANIFEST.hooks"), "w").write(
 kf = []
 for f in sorted(glob.glob(os.path.join(ROOT, "known_findings.d", "*.json"))):
     kf += json.load(open(f))
+for e_ in kf:
+    # the one-line form of each entry: a repaired defect suppresses nothing, an open one is printed as KNOWN-FINDING by its check
+    w_ = " ".join(str(e_.get("what", "")).split())
+    if e_.get("status") == "fixed":
+        e_["record"] = "fixed: property=%s %s %s" % (e_.get("property", ""), str(e_.get("commit", "")).split()[0] if e_.get("commit") else "-", w_[:300])
+    else:
+        e_["record"] = "KNOWN-FINDING: property=%s %s %s" % (e_.get("property", ""), e_.get("finding_id", ""), w_[:300])
 json.dump(kf, open(os.path.join(ROOT, "known_findings.json"), "w"), indent=1)
 commits = sorted({h.split()[0] for h in hooks if h.split()})
 m = {
